@@ -73,12 +73,13 @@ type CaseRef struct {
 // Family is a fixed, seed-determined list of N cases. Run executes case idx: it generates the
 // inputs from w.Rng, calls the library and hands what it observed to the monitor (w.*).
 type Family struct {
-	Name   string
-	N      int
-	Run    func(w *W, idx int)
-	Serial bool // runs alone on the main goroutine (it manages its own goroutines)
-	NoCold bool // too heavy to be repeated in every cold process variant
-	Env    int  // > 0: this many freshly drawn cases of the family are re-run under every setting of the env-sweep family (env.go)
+	Name     string
+	N        int
+	Run      func(w *W, idx int)
+	Serial   bool // runs alone on the main goroutine (it manages its own goroutines)
+	NoCold   bool // too heavy to be repeated in every cold process variant
+	NoRepeat bool // cases are never re-executed by runCaseRep (a case that is a whole process schedule)
+	Env      int  // > 0: this many freshly drawn cases of the family are re-run under every setting of the env-sweep family (env.go)
 }
 
 // Prop describes one property's check.
@@ -142,6 +143,7 @@ type W struct {
 	heartbeat atomic.Uint64
 	tid       atomic.Int64
 	env       string // name of the env-sweep setting in force, "" outside the sweep
+	rep       int    // > 0: this execution is the rep-th immediate repetition of the case (runCaseRep)
 }
 
 func newW(id int, cfg *Config) *W {
@@ -239,8 +241,8 @@ func sketchCount() int64 {
 // DistinctExact adds n cases that are distinct and non-trivial by construction (exact loop
 // counters of complete enumerations; they are not hashed).
 func (w *W) DistinctExact(n int64) {
-	if w.env != "" {
-		return // the env-sweep repeats cases of a complete enumeration: already counted
+	if w.env != "" || w.rep > 0 {
+		return // the env-sweep and runCaseRep repeat cases of a complete enumeration: already counted
 	}
 	w.exact += n
 }
@@ -292,6 +294,9 @@ func (w *W) fail(sig string, detail D, inconclusive bool) {
 	}
 	if w.env != "" && detail != nil {
 		detail["env_setting"] = w.env
+	}
+	if w.rep > 0 && detail != nil {
+		detail["immediate_repetition_of_the_case"] = w.rep
 	}
 	b, err := json.Marshal(detail)
 	if err != nil {
